@@ -450,7 +450,7 @@ pub fn run(ctx: &Ctx) -> (Report, PropertyMeta) {
     let r = run_cases(ctx, "router", &cases, router_outcome);
     report.exhaustive_parts.push(format!("3 peer types x 6 identity lengths x raw/library peer, fixed history touching every target kind: {} cases", cases.len()));
     report.merge(r);
-    let n = t.pick(5000, 200_000);
+    let n = t.pick(60_000, 1_000_000);
     let r = run_random(ctx, "router", n, 60..=300, gen_router, router_outcome);
     report.sections.push(json!({"part": "random histories: 1..5 peers (raw DEALER/REQ/ROUTER or library DEALER/REQ with the identity option), interleaved sends / partial deliveries / recvs / routed sends / resets", "cases": n}));
     report.merge(r);
